@@ -278,6 +278,17 @@ class Builtins:
             for i in x.items:
                 if type(i) is not Seg:
                     self.check_hashable(i)
+        if isinstance(x, Obj):
+            # a class that defines __eq__ without __hash__ has __hash__ = None
+            for c in x.cls.mro:
+                if c.builtin:
+                    break
+                if "__hash__" in c.dict:
+                    if c.dict["__hash__"] is None:
+                        raise Raised(self.mkexc("TypeError", f"unhashable type: {x.cls.name!r}"))
+                    break
+                if "__eq__" in c.dict:
+                    raise Raised(self.mkexc("TypeError", f"unhashable type: {x.cls.name!r}"))
 
     def b_dict(self, I, x=None, **kw):
         d = DictV()
